@@ -94,7 +94,7 @@ var trackedTypes = map[string]*typeSpec{
 		"lastIPConf": lk("thread:schedulerplugin.FloatingIPPlugin.configPoller")},
 		others: &frozen},
 	"schedulerplugin.crdKey": {fields: map[string]guard{"keyToGVR": lk("schedulerplugin.crdKey.Mutex")}, others: &frozen},
-	"crd.crdCache": {fields: map[string]guard{"startedInformers": lk("crd.crdCache.lock")}, others: &frozen},
+	"crd.crdCache":           {fields: map[string]guard{"startedInformers": lk("crd.crdCache.lock")}, others: &frozen},
 	"portmapping.PortMappingHandler": {fields: map[string]guard{"podPortMap": lk("portmapping.PortMappingHandler.Mutex")},
 		others: &frozen},
 	"policy.PolicyManager": {fields: map[string]guard{
@@ -207,17 +207,17 @@ type pkgInfo struct {
 }
 
 type analysis struct {
-	repo     string
-	accesses []access
-	sites    []callSite
-	bals     []bal
-	funcs    map[string]string // id -> "file:line"
-	roots    map[string]bool
-	exported map[string]bool
-	pseudo   int
+	repo        string
+	accesses    []access
+	sites       []callSite
+	bals        []bal
+	funcs       map[string]string // id -> "file:line"
+	roots       map[string]bool
+	exported    map[string]bool
+	pseudo      int
 	confCallers []string
-	summaries map[string][][2]string // method id -> (field, kind) on receiver
-	errs     []string
+	summaries   map[string][][2]string // method id -> (field, kind) on receiver
+	errs        []string
 }
 
 func (a *analysis) fail(format string, args ...interface{}) {
@@ -305,13 +305,13 @@ func isPointer(t types.Type) bool {
 // ---------------------------------------------------------------- walker
 
 type fctx struct {
-	a       *analysis
-	p       *pkgInfo
-	fn      string // function id accesses / call sites are attributed to
-	fresh   map[types.Object]bool
+	a        *analysis
+	p        *pkgInfo
+	fn       string // function id accesses / call sites are attributed to
+	fresh    map[types.Object]bool
 	closures map[types.Object]*ast.FuncLit
-	aliases map[types.Object]string // local var -> element location
-	depth   int
+	aliases  map[types.Object]string // local var -> element location
+	depth    int
 	// exits: states at return statements / end (for balance)
 	firstBal int
 }
